@@ -66,7 +66,7 @@ theorem WF.good {b : St} (h : WF b) : Good b.next b where
   nodup := h.nodup
   lt := h.lt
   file := h.file
-  locIn := fun i h1 h2 => absurd h2 (Nat.not_lt.2 h1)
+  locIn := fun _ h1 h2 => absurd h2 (Nat.not_lt.2 h1)
 
 /-! ## the weak invariant: what survives the end of construction -/
 
@@ -369,5 +369,159 @@ theorem loadMain_fail (S : Spec) (fuel : Nat) (st0 : St) (f : File) {st' : St} {
           have hc1 : st1.constr (base S st0).next = true := by rw [hM1.constr _ hlt]; exact hca
           obtain ⟨h1, h2, h3⟩ := finishMain_fail S hwf f hI1 hc1 h
           exact ⟨h1, h2, (hSa.trans hS1).trans h3⟩
+
+
+/-- what a successful main load establishes -/
+structure MainOK (S : Spec) (b : St) (f : File) (st' : St) (j : Inst) : Prop where
+  wf : WF st'
+  invW : InvW b.all b.next b.loc st'
+  stable : Stable b st'
+  locJ : ∀ x ∈ st'.loc j, x ∈ st'.all
+  inAll : S.glob = true → (f, j) ∈ st'.all
+  fileJ : st'.fileOf j = f
+  ltJ : j < st'.next
+  /-- the references of every model constructed in this load are resolved by `lookup` in the final state -/
+  tgt : ∀ m, b.next ≤ m → m ∈ included st' j → (st'.tgt m).map some = resolveAll S st' m
+
+theorem finishMain_ok (S : Spec) {b : St} (hwf : WF b) (f : File) {st1 st' : St} {j : Inst}
+    (hI : Inv b.all b.next b.loc st1) (hG : Good b.next st1) (hc : st1.constr b.next = true)
+    (hlt : b.next < st1.next) (hfile : st1.fileOf b.next = f) (hin : S.glob = true → (f, b.next) ∈ st1.all)
+    (hS : Stable b st1)
+    (h : finishMain S b f st1 = (st', .ok, j)) : MainOK S b f st' j := by
+  have hB := hwf.baseOK
+  unfold finishMain at h
+  simp only at h
+  split at h
+  · cases h
+  · rename_i hres
+    split at h
+    · cases h
+    · split at h
+      · cases h
+      · cases h
+        have hallc : ∀ e ∈ st1.all, b.next ≤ e.2 → e.2 ∈ modelsOf st1 b.next := fun e he hge' =>
+          List.mem_filter.2 ⟨mem_included_of_mem_all _ e he, hI.newc e he hge'⟩
+        refine
+        { wf :=
+          { nodup := hG.nodup
+            lt := hG.lt
+            file := hG.file
+            locIn := fun e he x hx => by
+              rcases Nat.lt_or_ge e.2 b.next with hl | hge
+              · have heB := hI.mem_B_of_lt e he hl
+                have hx' : x ∈ b.loc e.2 := by
+                  have := hI.frame e.2 hl
+                  simp only [St.endConstruction, St.setTargets] at hx
+                  rw [this] at hx; exact hx
+                exact hI.B_sub x (hB.loc e heB x hx')
+              · exact hG.locIn e.2 hge (hG.lt e he) x hx
+            noConstr := fun e he => by
+              simp only [St.endConstruction, St.setTargets]
+              split
+              · rfl
+              · rename_i hnm
+                rcases Nat.lt_or_ge e.2 b.next with hl | hge
+                · exact hI.oldc e (hI.mem_B_of_lt e he hl)
+                · exact absurd (by simpa [modelsOf] using hallc e he hge) hnm }
+          invW := endC_invW hI S _
+          stable := hS.trans (Stable.of_eq rfl rfl rfl)
+          locJ := fun x hx => hG.locIn b.next (Nat.le_refl _) hlt x hx
+          inAll := hin
+          fileJ := hfile
+          ltJ := hlt
+          tgt := ?_ }
+        intro m hge hm
+        have hmm : m ∈ (included st1 b.next).filter st1.constr := by
+          refine List.mem_filter.2 ⟨hm, ?_⟩
+          have hm' : m ∈ included st1 b.next := hm
+          unfold included at hm'
+          split at hm'
+          · obtain ⟨e, he, hem⟩ := List.mem_map.1 hm'
+            rw [← hem]; exact hI.newc e he (by rw [hem]; exact hge)
+          · rcases List.mem_append.1 hm' with h' | h'
+            · obtain ⟨e, he, hem⟩ := List.mem_map.1 h'
+              rw [← hem]; exact hI.newc e he (by rw [hem]; exact hge)
+            · have : m = b.next := by simpa using h'
+              rw [this]; exact hc
+        have hsome : ∀ t ∈ resolveAll S st1 m, t.isNone = false := by
+          intro t ht
+          cases hn : t.isNone
+          · rfl
+          · exfalso
+            apply hres
+            exact List.any_eq_true.2 ⟨m, hmm, List.any_eq_true.2 ⟨t, ht, hn⟩⟩
+        have hcont : ((included st1 b.next).filter st1.constr).contains m = true := by simpa using hmm
+        show (((st1.setTargets S _).endConstruction _).tgt m).map some = resolveAll S st1 m
+        simp only [St.endConstruction, St.setTargets, hcont, if_true]
+        generalize resolveAll S st1 m = l at hsome
+        induction l with
+        | nil => rfl
+        | cons t l ih =>
+          cases t with
+          | none => have := hsome none List.mem_cons_self; simp at this
+          | some v =>
+            simp only [List.filterMap_cons, id, List.map_cons]
+            rw [ih (fun t ht => hsome t (List.mem_cons_of_mem _ ht))]
+
+theorem loadMain_ok (S : Spec) (fuel : Nat) (st0 : St) (f : File) {st' : St} {j : Inst}
+    (hwf : WF (base S st0)) (h : loadMain S fuel st0 f = (st', .ok, j)) :
+    MainOK S (base S st0) f st' j := by
+  have hB := hwf.baseOK
+  rw [loadMain_unfold] at h
+  split at h
+  · -- cached main model
+    rename_i hc
+    have hg : S.glob = true := by cases hgl : S.glob <;> simp [hgl] at hc ⊢
+    have hh : (base S st0).all.has f = true := by rw [hg] at hc; simpa using hc
+    split at h
+    · cases h
+    · cases h
+      have hm := Dict.get?_of_has _ _ hh
+      exact
+      { wf := hwf
+        invW := hwf.inv.toW
+        stable := Stable.refl _
+        locJ := hwf.locIn _ hm
+        inAll := fun _ => hm
+        fileJ := hwf.file _ hm
+        ltJ := hwf.lt _ hm
+        tgt := fun m hge hmi => by
+          exfalso
+          unfold included at hmi
+          have hv : ((base S st0).all.get? f).getD 0 ∈ (base S st0).all.vals := Dict.mem_vals_of_mem hm
+          have : (base S st0).all.vals.contains (((base S st0).all.get? f).getD 0) = true := by simpa using hv
+          rw [this] at hmi
+          simp only [if_true] at hmi
+          obtain ⟨e, he, hem⟩ := List.mem_map.1 hmi
+          have := hwf.lt e he
+          rw [hem] at this
+          exact absurd this (Nat.not_lt.2 hge) }
+  · rename_i hnc
+    split at h
+    · cases h
+    · have hf : S.glob = true → f ∉ (base S st0).all.keys := fun hg => by
+        have : (base S st0).all.has f = false := by
+          cases hh : (base S st0).all.has f
+          · rfl
+          · rw [hg, hh] at hnc; simp at hnc
+        exact (Dict.has_false_iff _ _).1 this
+      obtain ⟨hIa, hGa, hSa, hlt, hca, hina, hfa, _⟩ := mainStart_facts S hwf f hf
+      cases hl : loadCalls (internal S fuel) (base S st0).next (mainStart S (base S st0) f) (S.calls f) with
+      | mk st1 r1 =>
+        rw [hl] at h
+        obtain ⟨hI1, hok1⟩ := loadCalls_safe (internal_safe hB S fuel) _ (Nat.le_refl _) (S.calls f) _ st1 r1
+          hIa hGa hlt hca hl
+        have hS1 : Stable (mainStart S (base S st0) f) st1 := by
+          have := loadCalls_stable (internal_stable S fuel) (base S st0).next (S.calls f) (mainStart S (base S st0) f)
+          rw [hl] at this; exact this
+        cases r1 with
+        | fuel => simp only at h; cases h
+        | fail k' => simp only at h; cases h
+        | ok =>
+          simp only at h
+          obtain ⟨hG1, hM1, _⟩ := hok1 rfl
+          have hc1 : st1.constr (base S st0).next = true := by rw [hM1.constr _ hlt]; exact hca
+          exact finishMain_ok S hwf f hI1 hG1 hc1 (Nat.lt_of_lt_of_le hlt hM1.next)
+            (by rw [hS1.fileOf _ hlt]; exact hfa) (fun hg => hM1.all _ (hina hg)) (hSa.trans hS1) h
 
 end Repo
